@@ -97,7 +97,8 @@ RBounded(c) ==
                        /\ (c.log[n].call = "connect" \/ (c.log[n].call = "close" /\ c.log[n].res \in {"restarts", "other"}))
   IN (IF c.runaway \/ (\E j \in Cn : Cardinality({k \in Cn : k <= j /\ SureWin(k, c.log[j].t)}) > M) THEN {"tooManyAttempts"} ELSE {})
      \cup (IF \E i \in A : /\ c.log[i].out = "fail" /\ ~StopLe(c, c.log[i].t1)
-                           /\ ~(\E j \in Closes(c) : c.log[j].s0 < c.log[i].s1)
+                           /\ ~(\E j \in Closes(c) : c.log[j].s0 < c.log[i].s1 \/ c.log[j].t = c.log[i].t1)   \* a close (by any closer) before the attempt returned, or at
+                                                                                                      \* the SAME instant as its return (goroutine order within an instant is not determined): the monitor is shut, nothing to pursue
                            /\ ~Pursued(i)
            THEN {"failureNotPursued"} ELSE {})
      \cup (IF \E j \in Closes(c) : /\ c.log[j].res = "restarts"
